@@ -2,6 +2,7 @@ package reactive
 
 import (
 	"fmt"
+	"strings"
 
 	"github.com/iotaledger/hive.go/ds"
 	rx "github.com/iotaledger/hive.go/ds/reactive"
@@ -53,6 +54,8 @@ type sworld struct {
 	subs    []*ssub
 	cur     map[*simrt.Task]*swrite
 	changes []*swrite
+	writes  []*swrite // all write calls, also those that changed nothing (reach probes only)
+	r       *reach
 }
 
 func mutSlices(m ds.SetMutations[int]) (add, del []int) {
@@ -127,6 +130,7 @@ func (w *sworld) unsubscribe(sub *ssub) {
 func (w *sworld) write(desc string, f func()) {
 	me := simrt.Current()
 	wr := &swrite{task: me, desc: desc, ord: -1}
+	w.writes = append(w.writes, wr)
 	w.cur[me] = wr
 	wr.inv = w.s.Tick()
 	w.s.Logf("%s", desc)
@@ -160,6 +164,54 @@ func (w *sworld) possiblyCurrent(val []int, from, to uint64) (ks []int) {
 		}
 	}
 	return ks
+}
+
+// reachProbes counts (once per run) the situations the C13 oracles quantify over, from the recorded stamps only.
+func (w *sworld) reachProbes() {
+	r := w.r
+	for i, a := range w.writes {
+		r.hit("write-without-change", a.ret != 0 && a.ord < 0)
+		for _, b := range w.writes[i+1:] {
+			r.hit("writers-overlap", a.task != b.task && stampsOverlap(a.inv, a.ret, b.inv, b.ret))
+		}
+	}
+	for k, c := range w.changes {
+		if strings.HasPrefix(c.desc, "Replace") {
+			old := w.stateBefore(k)
+			r.hit("replace-keeps-some-elements-and-changes-others", intersects(old, c.state) && !eqInts(old, c.state))
+		}
+	}
+	for _, sub := range w.subs {
+		for _, e := range sub.cbs {
+			for _, b := range w.writes {
+				r.hit("callback-started-while-other-write-in-flight", e.wr != nil && b != e.wr && b.inv < e.enter && e.enter < (&call{b.inv, b.ret}).retOrInf())
+			}
+		}
+		if sub.ref {
+			continue
+		}
+		for _, wr := range w.writes {
+			r.hit("subscribe-overlaps-write", stampsOverlap(sub.subInv, sub.subRet, wr.inv, wr.ret))
+			r.hit("unsubscribe-overlaps-write", sub.unsubInv != 0 && stampsOverlap(sub.unsubInv, sub.unsubRet, wr.inv, wr.ret))
+		}
+		r.hit("subscriber-got-initial-state-only", len(sub.cbs) == 1 && sub.cbs[0].initial)
+		delivered := map[*swrite]bool{}
+		for _, e := range sub.cbs {
+			if e.initial {
+				continue
+			}
+			delivered[e.wr] = true
+			r.hit("callback-started-after-unsubscribe-invoked", sub.unsubInv != 0 && e.enter > sub.unsubInv)
+		}
+		// an update racing with the subscription call is either delivered or already part of the state the subscription
+		// starts from: the oracles accept both
+		for _, c := range w.changes {
+			if stampsOverlap(sub.subInv, sub.subRet, c.inv, c.ret) {
+				r.hit("update-during-subscribe-delivered-as-update", delivered[c])
+				r.hit("update-during-subscribe-part-of-initial-state", !delivered[c] && (sub.unsubInv == 0 || c.ret < sub.unsubInv))
+			}
+		}
+	}
 }
 
 func (w *sworld) fmtChanges() string {
@@ -214,6 +266,7 @@ func (w *sworld) finalChecks(final []int) {
 			s.Fail("initial", "missing-with-trigger-option", "%s (%s): no initial callback", sub.name, sub.kind)
 		}
 		starts := w.possiblyCurrent(base, sub.subInv, upper)
+		w.r.hit("subscription-start-state-matches-several-updates", !sub.ref && len(starts) > 1)
 		if len(starts) == 0 {
 			sig := "state-at-subscription-not-delivered"
 			if hasInitial {
@@ -311,7 +364,7 @@ func setBody(s *simrt.Sim) {
 	if s.Choose(2) == 1 {
 		init = subset(s, setUniverse, false)
 	}
-	w := &sworld{s: s, set: rx.NewSet(init...), init: sortedInts(init), cur: map[*simrt.Task]*swrite{}}
+	w := &sworld{s: s, set: rx.NewSet(init...), init: sortedInts(init), cur: map[*simrt.Task]*swrite{}, r: newReach(s)}
 	s.Logf("config init=%s noreplace=%v", fmtInts(init), noReplace)
 	ref := &ssub{name: "ref", kind: "OnUpdate", ref: true}
 	w.subscribe(ref)
@@ -358,10 +411,12 @@ func setBody(s *simrt.Sim) {
 				case 3:
 					w.write("DeleteAll"+fmtInts(o.a), func() { set.DeleteAll(ds.NewSet(o.a...)) })
 				case 4:
+					w.r.hit("mutation-adds-and-deletes-same-element", intersects(o.a, o.b))
 					w.write("Apply(+"+fmtInts(o.a)+" -"+fmtInts(o.b)+")", func() {
 						set.Apply(ds.NewSetMutations(o.a...).WithDeletedElements(ds.NewSet(o.b...)))
 					})
 				case 5:
+					w.r.hit("mutation-adds-and-deletes-same-element", intersects(o.a, o.b))
 					w.write("Compute(+"+fmtInts(o.a)+" -"+fmtInts(o.b)+")", func() {
 						set.Compute(func(ds.ReadableSet[int]) ds.SetMutations[int] {
 							simrt.Yield()
@@ -400,5 +455,6 @@ func setBody(s *simrt.Sim) {
 	hx.Stuck(s, "deadlock", left, nil)
 	final := sortedInts(set.ToSlice())
 	s.Logf("final %s", fmtInts(final))
+	w.reachProbes()
 	w.finalChecks(final)
 }
